@@ -42,10 +42,11 @@ type c08Track struct {
 }
 
 type c08World struct {
-	mu          sync.Mutex
-	byTag       map[string]*c08Track
-	panicUnbind sync.Map // connID -> true
-	pki         *PKI
+	writeEntries int // entries written by a "writing" handler (default 150)
+	mu           sync.Mutex
+	byTag        map[string]*c08Track
+	panicUnbind  sync.Map // connID -> true
+	pki          *PKI
 }
 
 func (wd *c08World) track(tag string) *c08Track {
@@ -78,7 +79,11 @@ func (wd *c08World) register(m *gldap.Mux) {
 		case "park":
 			<-t.gate
 		case "write":
-			for i := 0; i < 150; i++ {
+			n := wd.writeEntries
+			if n == 0 {
+				n = 150
+			}
+			for i := 0; i < n; i++ {
 				e := r.NewSearchResponseEntry("cn=e")
 				e.AddAttribute("b", []string{blob})
 				if w.Write(e) != nil {
@@ -324,8 +329,12 @@ func c08OneCell(c *Ctx, wd *c08World, srv *Srv, cell c08Cell, stopper func()) {
 	c.Max("max/handlers_in_flight_at_an_ending", int64(k))
 }
 
-func c08Run(c *Ctx) {
-	wd := &c08World{byTag: map[string]*c08Track{}, pki: newPKI()}
+func c08Run(c *Ctx) { c08RunWith(c, 0) }
+
+// c08RunWith runs the matrix; writeEntries > 0 shrinks the "writing" handlers' output
+// (used when the matrix serves as a race-detector workload, where 70KB frames cost ~10ms each).
+func c08RunWith(c *Ctx, writeEntries int) {
+	wd := &c08World{byTag: map[string]*c08Track{}, pki: newPKI(), writeEntries: writeEntries}
 	baseFDs := socketFDs()
 	var cells []c08Cell
 	for _, e := range c08Endings {
